@@ -16,7 +16,11 @@ From Coq Require Import ZArith List Bool.
 Import ListNotations.
 Open Scope Z_scope.
 
-Inductive item := IData (d : list Z) | IAlert (lvl desc : Z) | IHs (benign : bool).
+(* post-handshake control traffic: KeyUpdate (update_requested or not), a heartbeat request
+   (answer: the extension was negotiated, the endpoint answers it), a TLS 1.3 post-handshake
+   CertificateRequest (answer: the client is prepared for it) *)
+Inductive ctl := KuReq | KuNoReq | HbReq (answer : bool) | PhaReq (answer : bool).
+Inductive item := IData (d : list Z) | IAlert (lvl desc : Z) | IHs (benign : bool) | ICtl (k : ctl).
 Inductive rxend := RxOpen | RxEof | RxErr (e : Z).
 Inductive witem := WData (d : list Z) | WAlert (lvl desc : Z) | WHs (ct : Z).
 Inductive exn := XClosed | XAbrupt | XSock (e : Z) | XRemote (desc : Z) | XLocal (desc : Z) | XValue.
@@ -156,6 +160,28 @@ Definition alert_branch (l d : Z) (s : st) : st * exn :=
   let '(s2, e) := shutdown (d =? 0) s1 in
   (s2, match e with Some z => XSock z | None => XRemote d end).
 
+(* _sendMsg of a handshake-type record OUTSIDE any handshake (KeyUpdate, post-handshake
+   CertificateRequest): _sendMsgThroughSocket's look-for-alert branch with no
+   _handshakeWrapperAsync around it.  When reading the next record itself fails (EOF, errno)
+   that exception leaves and nothing has shut the connection down. *)
+Definition post_send_hs (s : st) : st * r unit :=
+  let '(s1, e) := send_rec (WHs 22) s in
+  match e with
+  | None => (s1, Val tt)
+  | Some z =>
+      match recv_item s1 with
+      | (s2, Val i) =>
+          let '(s3, e') := shutdown false s2 in
+          (s3, Exc (match e' with
+                    | Some z' => XSock z'
+                    | None => match i with IAlert _ d => XRemote d | _ => XSock z end
+                    end))
+      | (s2, Exc x) => (s2, Exc x)
+      | (s2, Blk) => (s2, Blk)
+      | (s2, Fuel) => (s2, Fuel)
+      end
+  end.
+
 Inductive rctx := CRead | CWait | CHs.
 
 (* _getMsg for the three kinds of caller: readAsync (application data; in TLS 1.3 also
@@ -184,18 +210,55 @@ Fixpoint get_msg_q (c : rctx) (q : list item) (s : st) : st * r item :=
                    else let '(s1, x) := send_error 10 s0 in (s1, Exc x)
         | CWait => let '(s1, x) := send_error 10 s0 in (s1, Exc x)
         end
+    | ICtl k =>
+        match k with
+        | HbReq a =>
+            (* answered inside _getMsg whoever the caller is; socket errors of the answer are ignored *)
+            if a then get_msg_q c q' (fst (send_rec (WHs 24) s0))
+            else let '(s1, x) := send_error 10 s0 in (s1, Exc x)
+        | KuReq | KuNoReq =>
+            match c with
+            | CRead => if tls13 s0 then (s0, Val i) else let '(s1, x) := send_error 10 s0 in (s1, Exc x)
+            | _ => let '(s1, x) := send_error 10 s0 in (s1, Exc x)
+            end
+        | PhaReq a =>
+            match c with
+            | CRead => if a && tls13 s0 then (s0, Val i) else let '(s1, x) := send_error 10 s0 in (s1, Exc x)
+            | _ => let '(s1, x) := send_error 10 s0 in (s1, Exc x)
+            end
+        end
     end
   end.
 Definition get_msg (c : rctx) (s : st) : st * r item := get_msg_q c (inq s) s.
 
 (* ---- readAsync ------------------------------------------------------------------------ *)
+(* one message for the read loop: _getMsg, then -- inside the same try block, so that the same
+   except clauses apply -- the answer to a KeyUpdate(update_requested) (_handle_keyupdate_request ->
+   send_keyupdate_request) or to a post-handshake CertificateRequest (_handle_pha: Certificate,
+   CertificateVerify, Finished buffered and flushed in one write) *)
+Definition read_msg (s : st) : st * r item :=
+  match get_msg CRead s with
+  | (s1, Val (ICtl KuReq)) =>
+      match post_send_hs s1 with
+      | (s2, Val _) => (s2, Val (ICtl KuNoReq))
+      | (s2, Exc x) => (s2, Exc x)
+      | (s2, Blk) => (s2, Blk)
+      | (s2, Fuel) => (s2, Fuel)
+      end
+  | (s1, Val (ICtl (PhaReq _))) =>
+      let '(s2, e) := sock_send [WHs 22; WHs 22; WHs 22] s1 in
+      (s2, match e with Some z => Exc (XSock z) | None => Val (IHs true) end)
+  | p => p
+  end.
+
 Fixpoint read_loop (fuel : nat) (try_once : bool) (mn : Z) (s : st) : st * r unit :=
   match fuel with
   | O => (s, Fuel)
   | S f =>
     if ((zlen (rbuf s) <? mn) || (is_nil (rbuf s) && try_once)) && negb (closed s) then
-      match get_msg CRead s with
+      match read_msg s with
       | (s1, Val (IData d)) => read_loop f false mn (set_rbuf (rbuf s1 ++ d) s1)
+      | (s1, Val (ICtl KuNoReq)) => read_loop f true mn s1      (* KeyUpdate handled: try_once again *)
       | (s1, Val _) => read_loop f false mn s1
       | (s1, Exc (XRemote d)) => if d =? 0 then read_loop f false mn s1 else (s1, Exc (XRemote d))
       | (s1, Exc XAbrupt) =>
@@ -256,6 +319,38 @@ Definition do_write (d : list Z) (s : st) : st * outcome :=
        | Some z => raise_after_shutdown (ign s1) (XSock z) s1
        | None => (s1, ODone)
        end.
+
+(* ---- post-handshake public calls: send_keyupdate_request, request_post_handshake_auth,
+        write_heartbeat / send_heartbeat_request ------------------------------------------------ *)
+Definition post_outcome (p : st * r unit) : st * outcome :=
+  match p with
+  | (s1, Val _) => (s1, ODone)
+  | (s1, Exc x) => (s1, OExc x)
+  | (s1, Blk) => (s1, OBlocked)
+  | (s1, Fuel) => (s1, OFuel)
+  end.
+
+(* closed => TLSClosedConnectionError; not TLS 1.3 => caller error (XValue stands for the
+   exceptions raised before anything is sent: ValueError, TLSIllegalParameterException,
+   TLSInternalError) *)
+Definition do_keyupdate (s : st) : st * outcome :=
+  if closed s then (s, OExc XClosed)
+  else if negb (tls13 s) then (s, OExc XValue)
+  else post_outcome (post_send_hs s).
+
+(* ok: server side, the client announced post_handshake_auth.  On a closed connection the
+   version test comes first (version is (0,0) after _shutdown): ValueError *)
+Definition do_pha (ok : bool) (s : st) : st * outcome :=
+  if closed s || negb ok || negb (tls13 s) then (s, OExc XValue)
+  else post_outcome (post_send_hs s).
+
+(* ok: heartbeat negotiated and this side may send requests.  A heartbeat record is not a
+   handshake record: a socket error is raised as it is and nothing shuts the connection down *)
+Definition do_heartbeat (ok : bool) (s : st) : st * outcome :=
+  if closed s then (s, OExc XClosed)
+  else if negb ok then (s, OExc XValue)
+  else let '(s1, e) := send_rec (WHs 24) s in
+       match e with Some z => (s1, OExc (XSock z)) | None => (s1, ODone) end.
 
 (* ---- closeAsync / _decrefAsync -------------------------------------------------------- *)
 Fixpoint close_wait (fuel : nat) (s : st) : st * r (Z * Z) :=
@@ -368,6 +463,7 @@ Inductive event :=
 | URead (mx : option Z) (mn : Z) | UWrite (d : list Z) | UClose | UMakefile
 | UHsStart | UHs (h : hstep)
 | USetIgn (b : bool) | USetCsock (b : bool)
+| UKeyUpdate | UPha (ok : bool) | UHeartbeat (ok : bool)
 | NIn (i : item)                (* a whole message arrives *)
 | NEof                          (* the peer's direction ends without close_notify *)
 | NReset (e : Z)                (* recv starts failing with errno e (after what is queued) *)
@@ -385,6 +481,9 @@ Definition step (s : st) (ev : event) : st * outcome :=
   | UHs h => do_hs h s
   | USetIgn b => (set_ign b s, OStep)
   | USetCsock b => (set_csock b s, OStep)
+  | UKeyUpdate => do_keyupdate s
+  | UPha ok => do_pha ok s
+  | UHeartbeat ok => do_heartbeat ok s
   | NIn i => if rx_open s && sock_open s then (set_inq (inq s ++ [i]) s, ONone) else (s, ONone)
   | NEof => if rx_open s then (set_rxe RxEof s, ONone) else (s, ONone)
   | NReset e => if rx_open s then (set_rxe (RxErr e) s, ONone) else (s, ONone)
